@@ -302,3 +302,321 @@ def mon_c04(sc, res):
                 fails.append("step %d: element set differs from the reference map (daemon, reference): %s" % (si, repr(diff)[:300]))
                 R = {p: list(v) for p, v in img.items()}
     return fails[:6]
+
+
+# --------------------------------------------------------------------------- C01 (replica)
+
+def _lower(b):
+    return bytes(c + 32 if 65 <= c <= 90 else c for c in b)
+
+
+def ref_rule(params):
+    """python reference of the path rule: returns a predicate on path bytes, or None when the rule is refused/malformed
+    (then the fetch must not have been installed)"""
+    if not is_obj(params):
+        return None
+    rule = cget(params, b"path")
+    if rule is None:
+        return lambda p: True
+    if not is_obj(rule):
+        return None
+    ci_items = [v for k, v in rule[1] if k.lower() == b"caseinsensitive"]
+    ci = bool(ci_items) and ci_items[0] is True
+    preds = []
+    for k, v in rule[1]:
+        if k == b"caseInsensitive":
+            continue
+        if k in (b"equals", b"equalsNot", b"startsWith", b"endsWith", b"contains"):
+            if not isinstance(v, bytes):
+                return None
+            preds.append((k, [v]))
+        elif k == b"containsAllOf":
+            if not isinstance(v, list) or not v or not all(isinstance(x, bytes) for x in v):
+                return None
+            preds.append((k, v))
+        else:
+            return None
+    if not preds:
+        return None
+    if sum(1 for k, _ in rule[1] if k == b"caseInsensitive") > 1:
+        return None
+
+    def pred(path):
+        p = _lower(path) if ci else path
+        for k, ops in preds:
+            ops2 = [_lower(o) if ci else o for o in ops]
+            if k == b"equals" and not p == ops2[0]:
+                return False
+            if k == b"equalsNot" and p == ops2[0]:
+                return False
+            if k == b"startsWith" and not p.startswith(ops2[0]):
+                return False
+            if k == b"endsWith" and not p.endswith(ops2[0]):
+                return False
+            if k in (b"contains", b"containsAllOf") and not all(o in p for o in ops2):
+                return False
+        return True
+    return pred
+
+
+def fid_key(v):
+    """fetch ids are compared by the int field for numbers, by bytes for strings"""
+    if isinstance(v, float):
+        return ("n", D.vint_of(v))
+    return ("s", v)
+
+
+def mon_c01(sc, res):
+    """Replays each subscriber's notifications into a replica and compares it, at every quiescent point, with the daemon's
+    own element set filtered by a python reference of the fetch rule and by the group words the daemon holds."""
+    fails = []
+    itr = res["itr"]
+    active = {}       # (conn, fidkey) -> dict(pred, replica{path: value}, healthy)
+    addr2conn = {}
+    snaps = {}
+    for sn in res["log"].snaps:
+        if 0 <= sn["step"] < len(itr.smap):
+            snaps[itr.smap[sn["step"]]] = sn
+    dead = set()
+    unhealthy = set()
+    ended = {}        # (conn, fidkey) -> step of the unfetch response
+    unobserved = set()
+    for si, st in enumerate(sc.steps):
+        for c, addr in itr.peers[si]:
+            addr2conn[addr] = c
+        sends = step_sends(res, si)
+        for d, ok, v in sends:
+            if not ok:
+                unhealthy.add(d)
+        # which fetch/unfetch requests are in this step, per connection, with their ids
+        pending_fetch = {}
+        pending_unfetch = {}
+        tainted = set()      # fetch ids touched in this step by requests whose outcome cannot be observed
+        for c, top in step_requests(st, itr.replies, si):
+            if top is None or c in dead:
+                continue
+            rs, _ = flatten_requests(top)
+            for r in rs:
+                m = cget(r, b"method")
+                rid = cget(r, b"id")
+                params = cget(r, b"params")
+                if m == b"fetch" and is_id(rid) and is_obj(params) and is_id(cget(params, b"id")):
+                    pending_fetch.setdefault((c, repr(rid)), []).append(params)
+                elif m == b"fetch" and is_obj(params) and is_id(cget(params, b"id")):
+                    # no usable request id: installation cannot be observed; events for this fetch id are not judged
+                    tainted.add((c, fid_key(cget(params, b"id"))))
+                if m == b"unfetch" and is_id(rid) and is_obj(params) and is_id(cget(params, b"id")):
+                    pending_unfetch.setdefault((c, repr(rid)), []).append(params)
+                elif m == b"unfetch" and is_obj(params) and is_id(cget(params, b"id")):
+                    tainted.add((c, fid_key(cget(params, b"id"))))
+        # walk the sends in order
+        for d, ok, v in sends:
+            if isinstance(v, tuple) and v and v[0] == "unparsable":
+                continue
+            if is_response(v):
+                key = (d, repr(cget(v, b"id")))
+                if has_member(v, b"result"):
+                    if key in pending_fetch and len(pending_fetch[key]) == 1 and key not in pending_unfetch:
+                        params = pending_fetch.pop(key)[0]
+                        fk = (d, fid_key(cget(params, b"id")))
+                        pred = ref_rule(params)
+                        if fk in tainted:
+                            pass
+                        elif pred is None:
+                            fails.append("step %d: fetch with a malformed rule was answered with success (c%d)" % (si, d))
+                        else:
+                            pre = active.get(fk, {}).get("early", {})
+                            active[fk] = {"pred": pred, "replica": dict(pre), "since": si}
+                            ended.pop(fk, None)
+                            unobserved.discard(fk)
+                    elif key in pending_unfetch and len(pending_unfetch[key]) == 1 and key not in pending_fetch:
+                        params = pending_unfetch.pop(key)[0]
+                        fk = (d, fid_key(cget(params, b"id")))
+                        active.pop(fk, None)
+                        ended[fk] = si
+                    elif key in pending_fetch or key in pending_unfetch:
+                        # ambiguous (same request id used twice in the step): give up on this connection's fetches
+                        for fk in [f for f in active if f[0] == d]:
+                            active.pop(fk)
+                        unhealthy.add(d)
+                continue
+            meth = cget(v, b"method")
+            params = cget(v, b"params")
+            if meth is not None and is_obj(params) and cget(params, b"event") is not None and cget(v, b"id") is None:
+                fk = (d, fid_key(meth))
+                ev = cget(params, b"event")
+                path = cget(params, b"path")
+                val = cget(params, b"value")
+                key_any = [kk for kk in pending_fetch if kk[0] == d and any(fid_key(cget(pp, b"id")) == fk[1] for pp in pending_fetch[kk])]
+                if fk in tainted or (fk in unobserved and not key_any):
+                    continue
+                if fk in ended and d not in unhealthy and not key_any:
+                    fails.append("step %d: c%d got a %s event for fetch %s after its unfetch response" % (si, d, ev.decode(), show(meth)))
+                    continue
+                if fk not in active:
+                    # adds that precede the success response of the installing step
+                    if ev == b"add" and key_any:
+                        active.setdefault(fk, {"early": {}})
+                        if "early" in active[fk]:
+                            active[fk]["early"][path] = val
+                        continue
+                    if d not in unhealthy and fk not in unobserved:
+                        fails.append("step %d: c%d got a %s event for %s with fetch id %s that is not installed" % (si, d, ev.decode(), show(path), show(meth)))
+                    continue
+                a = active[fk]
+                if "replica" not in a:
+                    if ev == b"add":
+                        a["early"][path] = val
+                    continue
+                rep = a["replica"]
+                if ev == b"add":
+                    if path in rep and d not in unhealthy:
+                        fails.append("step %d: duplicate add of %s to c%d fetch %s" % (si, show(path), d, show(meth)))
+                    rep[path] = val
+                elif ev == b"change":
+                    if path not in rep and d not in unhealthy:
+                        fails.append("step %d: change of unreported %s to c%d fetch %s" % (si, show(path), d, show(meth)))
+                    rep[path] = val
+                elif ev == b"remove":
+                    if path not in rep and d not in unhealthy:
+                        fails.append("step %d: remove of unreported %s to c%d fetch %s" % (si, show(path), d, show(meth)))
+                    rep.pop(path, None)
+        # fetches whose installing request failed leave "early" junk behind
+        for fk in [f for f, a in active.items() if "replica" not in a]:
+            active.pop(fk)
+        for fk in tainted:
+            active.pop(fk, None)
+            unobserved.add(fk)
+        for c in itr.closed[si]:
+            dead.add(c)
+            for fk in [f for f in active if f[0] == c]:
+                active.pop(fk)
+        if st[0] == "quiesce" and si in snaps:
+            sn = snaps[si]
+            groups_of = {}
+            for p in sn["peerlist"]:
+                groups_of[addr2conn.get(p["addr"], -1)] = int(p["groups"].split(",")[0])
+            auth = bool(sc.users)
+            for fk, a in active.items():
+                c = fk[0]
+                if c in unhealthy or c in dead or "replica" not in a:
+                    continue
+                want = {}
+                for e in sn["elems"]:
+                    eg = int(e["groups"].split(",")[0])
+                    visible = (not auth) or (eg & groups_of.get(c, 0)) != 0
+                    if visible and a["pred"](e["path"]):
+                        want[e["path"]] = canon_text(D.C.unhex(e["value"])) if e["value"] != "~" else None
+                if want != a["replica"]:
+                    diff = {show(p): (a["replica"].get(p, "absent"), want.get(p, "absent")) for p in set(want) | set(a["replica"])
+                            if want.get(p, "absent") != a["replica"].get(p, "absent")}
+                    fails.append("step %d: replica of c%d fetch %s differs from the daemon's matching elements (replica, daemon): %s" % (
+                        si, c, fk[1], repr(diff)[:300]))
+    return fails[:6]
+
+
+# --------------------------------------------------------------------------- C03 / C14 (routing)
+
+def mon_c03(sc, res):
+    """Every routed message reaches exactly the owner once with the caller's payload under a fresh id; every resolver
+    (owner reply, timer expiry, owner/caller disconnect) yields exactly one final answer to a caller that has an id and
+    nothing otherwise; the routing tables hold exactly the unresolved requests."""
+    fails = []
+    itr = res["itr"]
+    inflight = {}      # rid(bytes) -> dict(caller, owner, origin, timer)
+    snaps = {}
+    for sn in res["log"].snaps:
+        if 0 <= sn["step"] < len(itr.smap):
+            snaps[itr.smap[sn["step"]]] = sn
+    dead = set()
+    ever = set()
+    for si, st in enumerate(sc.steps):
+        sends = step_sends(res, si)
+        reqs = [(c, v) for c, v in step_requests(st, itr.replies, si) if c not in dead and v is not None]
+        cands, replies_in = [], []
+        for c, top in reqs:
+            rs, _ = flatten_requests(top)
+            for r in rs:
+                m = cget(r, b"method")
+                if m in (b"set", b"call") and is_obj(cget(r, b"params")) and isinstance(cget(cget(r, b"params"), b"path"), bytes):
+                    cands.append((c, r))
+                if m is None and isinstance(cget(r, b"id"), bytes) and (has_member(r, b"result") or has_member(r, b"error")):
+                    replies_in.append((c, r))
+        arms = [t for t in itr.timers[si] if t[0] == "arm"]
+        expect = []          # (conn, id, payload-check or None) final answers that MUST be sent in this step
+        new_here = []
+        for d, ok, v in sends:
+            if isinstance(v, tuple) and v and v[0] == "unparsable":
+                continue
+            meth = cget(v, b"method")
+            if meth is not None and isinstance(cget(v, b"id"), bytes) and isinstance(meth, bytes):
+                rid = cget(v, b"id")
+                if rid in ever:
+                    fails.append("step %d: routed id %s was used before" % (si, show(rid)))
+                ever.add(rid)
+                match = None
+                for i, (c, r) in enumerate(cands):
+                    params = cget(r, b"params")
+                    if cget(params, b"path") != meth:
+                        continue
+                    isset = cget(r, b"method") == b"set"
+                    want = ("obj", [(b"value", cget(params, b"value"))]) if isset else (cget(params, b"args") if cget(params, b"args") is not None else ("obj", []))
+                    if cget(v, b"params") == want:
+                        match = i
+                        break
+                if match is None:
+                    fails.append("step %d: routed message %s to c%d corresponds to no set/call of this step with equal path and payload" % (si, show(v)[:160], d))
+                    continue
+                c, r = cands.pop(match)
+                tm = arms[len(new_here)][1] if len(new_here) < len(arms) else None
+                rec = {"caller": c, "owner": d, "origin": cget(r, b"id"), "timer": tm}
+                new_here.append(rid)
+                if ok:
+                    inflight[rid] = rec
+                elif is_id(rec["origin"]):
+                    expect.append((c, rec["origin"], "error"))
+        # resolvers of this step
+        for rc, rr in replies_in:
+            rid = cget(rr, b"id")
+            f = inflight.get(rid)
+            if f is not None and f["owner"] == rc:
+                inflight.pop(rid)
+                if is_id(f["origin"]) and f["caller"] not in dead:
+                    key = b"result" if has_member(rr, b"result") else b"error"
+                    expect.append((f["caller"], f["origin"], (key, cget(rr, key))))
+        for t in itr.expired[si]:
+            for rid in [r for r, f in inflight.items() if f["timer"] == t]:
+                f = inflight.pop(rid)
+                if is_id(f["origin"]) and f["caller"] not in dead:
+                    expect.append((f["caller"], f["origin"], "error"))
+        closing = list(itr.closed[si])
+        for c in closing:
+            for rid in [r for r, f in inflight.items() if f["owner"] == c or f["caller"] == c]:
+                f = inflight.pop(rid)
+                if f["owner"] == c and f["caller"] != c and f["caller"] not in dead and f["caller"] not in closing and is_id(f["origin"]):
+                    expect.append((f["caller"], f["origin"], "error"))
+        # every expected final answer must appear exactly once among the responses of this step
+        responses = [(d, v) for d, ok, v in sends if not (isinstance(v, tuple) and v and v[0] == "unparsable") and is_response(v)]
+        for (c, oid, chk) in expect:
+            hits = [i for i, (d, v) in enumerate(responses) if d == c and cget(v, b"id") == oid and (
+                (chk == "error" and has_member(v, b"error")) or (chk != "error" and has_member(v, chk[0]) and cget(v, chk[0]) == chk[1]))]
+            if not hits:
+                fails.append("step %d: caller c%d did not get its final answer for id %s (%s)" % (si, c, show(oid), "error" if chk == "error" else "owner's payload unchanged"))
+            else:
+                responses.pop(hits[0])
+        for c in closing:
+            dead.add(c)
+        if st[0] == "quiesce" and si in snaps:
+            sn = snaps[si]
+            have = set()
+            for p in sn["peerlist"]:
+                if p["routes"] != "~":
+                    for x in p["routes"].split(","):
+                        have.add(D.C.unhex(x.split(":", 1)[1]))
+            mine = set(inflight)
+            if have != mine:
+                fails.append("step %d: routing tables hold %s but the history says %s are in flight" % (
+                    si, sorted(show(x) for x in have - mine)[:3], sorted(show(x) for x in mine - have)[:3]))
+            if len(sn["armed"]) != len(mine):
+                fails.append("step %d: %d timers armed for %d requests in flight" % (si, len(sn["armed"]), len(mine)))
+    return fails[:6]
